@@ -191,27 +191,25 @@ def rule_range(text):
             rng = text[op + 1:cl].strip()
             rm = mask(rng)
             which = tail.group(1)
+            nxt = which == "next"
             if "..=" in rm:
                 lo, hi = split_top_level(rm, rng, "..=")
                 lo, hi = lo.strip(), hi.strip()
                 if lo and hi:
-                    fn = "btree_first_in_incl" if which == "next" else "btree_last_in_incl"
-                    new = "%s(&%s, %s, %s)" % (fn, recv, lo, hi)
+                    new = "%s(&%s, %s, %s)" % ("btree_first_in_incl" if nxt else "btree_last_in_incl", recv, lo, hi)
+                elif hi:
+                    new = "%s(&%s, %s)" % ("btree_first_le" if nxt else "btree_last_le", recv, hi)
                 else:
                     continue
             elif ".." in rm:
                 lo, hi = split_top_level(rm, rng, "..")
                 lo, hi = lo.strip(), hi.strip()
-                if lo and not hi:
-                    fn = "btree_first_ge" if which == "next" else None
-                    if not fn:
-                        continue
-                    new = "%s(&%s, %s)" % (fn, recv, lo)
-                elif hi and not lo:
-                    fn = "btree_last_lt" if which == "next_back" else None
-                    if not fn:
-                        continue
-                    new = "%s(&%s, %s)" % (fn, recv, hi)
+                if lo and hi:
+                    new = "%s(&%s, %s, %s)" % ("btree_first_in_excl" if nxt else "btree_last_in_excl", recv, lo, hi)
+                elif lo:
+                    new = "%s(&%s, %s)" % ("btree_first_ge" if nxt else "btree_last_ge", recv, lo)
+                elif hi:
+                    new = "%s(&%s, %s)" % ("btree_first_lt" if nxt else "btree_last_lt", recv, hi)
                 else:
                     continue
             else:
@@ -221,11 +219,11 @@ def rule_range(text):
             break
         if not hit:
             # M.iter().next_back()
-            mm = re.search(r"\.\s*iter\s*\(\s*\)\s*\.\s*next_back\s*\(\s*\)", m)
+            mm = re.search(r"\.\s*iter\s*\(\s*\)\s*\.\s*(next_back|next)\s*\(\s*\)", m)
             if mm:
                 rs = _receiver_start(m, mm.start())
                 recv = text[rs:mm.start()].strip()
-                hit = (rs, mm.end(), "btree_last(&%s)" % recv)
+                hit = (rs, mm.end(), "%s(&%s)" % ("btree_last" if mm.group(1) == "next_back" else "btree_first", recv))
         if not hit:
             return text, apps
         rs, end, new = hit
